@@ -318,3 +318,47 @@ Definition kws_pinned : list str := List.map L
    "set"; "stored"; "table"; "temp"; "temporary"; "then"; "ties"; "to"; "transaction"; "trigger"; "true";
    "unbounded"; "union"; "unique"; "update"; "using"; "vacuum"; "values"; "view"; "virtual"; "when";
    "where"; "window"; "with"; "without"; "work"]%string.
+
+(* ------------------------------------------------------------------ text level (used by LexProofs.v) *)
+(* what the lexer must return in front of the tokens of the remaining text *)
+Definition prepend (ts : list stok) (r : lexres) : lexres := fold_right cons_tok r ts.
+
+Definition all_bin : list str := binops_of sql_tbl.
+Definition all_pre : list str := preops_of sql_tbl.
+
+Fixpoint starts_minus (e : sexpr) : bool :=
+  match e with
+  | EUn s _ => str_eqb s (L "-")
+  | EBin _ x _ => starts_minus x
+  | _ => false
+  end.
+Definition is_minus_un (e : sexpr) : bool := match e with EUn s _ => str_eqb s (L "-") | _ => false end.
+
+(* numbers of the text-level theorem: plain digit strings (the other spellings are compared with the real lexer only) *)
+Definition atom_text_ok (a : satom) : bool :=
+  match a with
+  | ANum s => match s with [] => false | _ => forallb is_digit s end
+  | _ => true
+  end.
+
+(* trees whose printed text the text-level theorem covers: operators of the real tiers, digit-string numbers, and a
+   minus applied to something that starts with a minus only when that is directly another minus (what the parser
+   builds, and where the printer inserts its blank) *)
+Fixpoint eokb (e : sexpr) : bool :=
+  match e with
+  | EAtom a => atom_text_ok a
+  | EUn s x => mem str_eqb s all_pre && eokb x &&
+               (negb (str_eqb s (L "-")) || negb (starts_minus x) || is_minus_un x)
+  | EBin s x y => mem str_eqb s all_bin && eokb x && eokb y
+  | EParen x => eokb x
+  end.
+
+(* number of lexer steps (tokens and blanks) for the printed text *)
+Fixpoint steps (e : sexpr) : nat :=
+  match e with
+  | EAtom _ => 1
+  | EUn s x => 1 + (if str_eqb s (L "NOT") then 1 else 0) +
+               (if str_eqb s (L "-") && is_minus_un x then 1 else 0) + steps x
+  | EBin _ x y => steps x + 3 + steps y
+  | EParen x => 2 + steps x
+  end.
